@@ -639,8 +639,27 @@ def check_register_interface(ctx, tag, asz, rsz, default, autoneg, plan):
 
     def table(signame, role, want):
         """Compare the value of a strobe with want(w, a, c) over the stimulus space."""
-        for w, a, c, env in envs():
-            v = ev(ir, E('sig', (ir.signals[signame],)), env) if signame in ir.signals else None
+        # small registers the strobe depends on (history the specification does not know): the strobe must be right for
+        # every value they can hold -- a "write pending" flag that survives an aborted transaction is exactly such a value
+        hist = []
+        if signame in ir.signals:
+            for n in sorted(q.support(ir, E('sig', (ir.signals[signame],)))):
+                si_ = ir.signals.get(n)
+                dn = ir.drivers(n, exact=True)
+                if si_ is not None and isinstance(si_.w, int) and si_.w <= 2 and dn and all(x.domain != 'comb' for x in dn):
+                    hist.append((n, si_.w))
+        for w, a, c, env0 in envs():
+            for hv in itertools.product(*[range(1 << hw) for _, hw in hist]):
+                env = dict(env0)
+                env.update({n: x for (n, _), x in zip(hist, hv)})
+                v = ev(ir, E('sig', (ir.signals[signame],)), env) if signame in ir.signals else None
+                if v is None:
+                    break
+                if v != want(w, a, c):
+                    return False, '%s is %d, expected %d, for write-bit=%d address=%d word_complete=%d%s: %s' % (
+                        role, v, want(w, a, c), w, a, c, ''.join(' %s=%d' % (n, x) for (n, _), x in zip(hist, hv)),
+                        [q.fmt(d) for d in ir.drivers(signame, exact=True)][:2])
+            env = env0
             if v is None:
                 raise AnalysisError('anchor vanished or not understood: %s cannot be evaluated from command / word_complete '
                                     '(drivers: %s)' % (signame, [q.fmt(d) for d in ir.drivers(signame, exact=True)][:2]))
